@@ -94,7 +94,8 @@ def cases(draw):
             case["ignore"] = draw(st.lists(st.sampled_from(IGNORABLE), min_size=1, max_size=2, unique=True))
         case["chan"] = draw(st.sampled_from(["raw", "raw", "raw", "file", "tsv", "turtle_iter", "rdflib"]))
         return case
-    g = draw(gg.general(bnodes=False, inst_props=(RDF_TYPE, RDF_TYPE, "http://ex.org/isA"), colon_locals=draw(st.integers(0, 2)) == 0,
+    # (blank nodes may be the subjects / values of the selected IRI nodes; a selector that answers a blank node is outside the domain)
+    g = draw(gg.general(bnodes=draw(st.integers(0, 2)) == 0, inst_props=(RDF_TYPE, RDF_TYPE, "http://ex.org/isA"), colon_locals=draw(st.integers(0, 2)) == 0,
                         quirks=draw(gg.quirk_set(allowed=("odd_schemes", "odd_schemes", "ns_iris", "hash_props", "shared_locals", "class_typing"), one_in=3))))
     cfg = draw(gg.switches())
     cfg["instances_report_mode"] = "mixed"
